@@ -34,7 +34,13 @@ def first_diff(req, impl, model, fields):
             if a != b: return None
             continue
         for f in fields:
-            if f in FIELDS:
+            if f == "emitted:start-cancel":
+                # only the emitted events a start/cancel property speaks about
+                keep = lambda s: ";;".join(e for e in s.split(";;") if e.split("(")[0] in ("TestStarted", "TestRetryStarted", "SetupScriptStarted", "RunBeginCancel", "RunBeginKill"))
+                j = FIELDS.index("emitted")
+                if keep(a[j]) != keep(b[j]):
+                    return (k, "emitted", keep(a[j]), keep(b[j]), evs[:k + 1])
+            elif f in FIELDS:
                 j = FIELDS.index(f)
                 if a[j] != b[j]:
                     return (k, f, a[j], b[j], evs[:k + 1])
